@@ -61,6 +61,16 @@ CHECKS = {
             "random boundary-aimed histories; TLC (Trace_C10) judges numbers, returned value, exception and unchanged "
             "content after every call.",
             "7 (C10)"),
+    "C09": ("model_checking",
+            "TLA+ spec (Names: Cisco keyword tables) checked by TLC for closure; complete enumeration of the library's "
+            "tables and of every name/number round trip, validated by TLC against the tables",
+            "The space is finite: TLC checks the specification's tables for closure (name->number->name->number, one "
+            "number per name across platforms, no collision with grammar keywords), and the harness enumerates every "
+            "exported table, the splitter vocabulary, every name x platform x version x protocol through Port (both "
+            "switch settings, re-parse, in-place platform/version switches), every number (thorough: all 65535) and every "
+            "protocol number/name x platform x switches, and every name in an ACE before 'ack log'; TLC (Trace_C09) "
+            "compares each observation with Names.tla. exhaustive=true in the thorough tier.",
+            "7 (C09)"),
 }
 
 NOT_YET = {
